@@ -7,6 +7,6 @@ for d in seeded/*/; do
   [ -f "$d/patch.diff" ] || continue
   ( [ -z "$noverify" ] && /venv/bin/python tools/seeded.py verify "$d" 2>&1 | grep -v "^WARNING" | cut -c1-200
     /venv/bin/python tools/seeded.py detect "$d" --tier "$tier" --props "$props" --jobs 2 ${budget:+--budget $budget} 2>&1 | grep -v "^WARNING" | cut -c1-260 ) &
-  while [ $(jobs | grep -c Running) -ge 3 ]; do sleep 2; done
+  while [ $(pgrep -fc "tools/seeded.py detect") -ge 3 ]; do sleep 2; done
 done
 wait
